@@ -25,7 +25,7 @@ CONFIGS = {
     "custom_ll": ["-DSEXP_USE_CUSTOM_LONG_LONGS=1"],
     "nothreads": ["-DSEXP_USE_GREEN_THREADS=0"],
     "noextfcall": ["-DSEXP_USE_EXTENDED_FCALL=0"],
-    "norefcache": ["-DSEXP_USE_STRING_REF_CACHE=0"],
+    "refcache": ["-DSEXP_USE_STRING_REF_CACHE=1"],
 }
 
 
